@@ -204,7 +204,7 @@ def handleAwsOp (prev : Option PGroup) (j : Json) : OpOut × Option PGroup :=
       -- monitors on the observed journal
       let oErr := incErrOfOutcome oOut (oJ.isEmpty)
       let m17 := if Spec.C17.increaseHolds cfg g delta oJ oErr then [] else
-        (["C17:request"] ++ (if seq > 0 then ["C07:not-on-top-of-current-desired"] else []))
+        (["C17:request", "C07:the cloud request is not the amount asked for on top of the desired size"] ++ (if seq > 0 then ["C07:not-on-top-of-current-desired"] else []))
       let m1718 := match acquiredOf oJ resps with
         | some acq =>
           (if Spec.C17.attachHolds g.id acq oJ then [] else ["C17:attach-partition"]) ++
@@ -285,5 +285,16 @@ def handleDecode (j : Json) : OpOut :=
   { diffs := (if honoured == row.isSome then [] else ["honoured"]) ++ (if getD obs "field" "" == expectField then [] else ["field"]),
     mon := (if same then [] else ["C16:yaml-json-differ:" ++ key]) ++ (if honoured then [] else ["C16:key-not-honoured:" ++ key]),
     tag := "decode:" ++ key, model := Json.mkObj [("expectField", toJson expectField)] }
+
+/-- `decode2`: a node group decodes to the same options whatever stands next to it in the file. -/
+def handleDecode2 (j : Json) : OpOut :=
+  let key : String := getD j "key" ""
+  let form : String := getD j "form" ""
+  let obs := (j.getObjVal? "obs").toOption.getD Json.null
+  let ind : Bool := getD obs "independent" false
+  let why : String := getD obs "why" ""
+  { diffs := if ind then [] else ["field"],
+    mon := if ind then [] else ["C16:decoded-options-depend-on-neighbouring-entries:" ++ key ++ ":" ++ form ++ ":" ++ why],
+    tag := "decode2:" ++ form, model := Json.mkObj [("independent", toJson true)] }
 
 end Esc
